@@ -125,7 +125,7 @@ func runFOp(w *world.World, t *mast.Mast, op fOp, aux *mast.Mast) (world.Res, st
 }
 
 func newValPtrC(c *world.Config) interface{} { return world.NewValPtr(c) }
-func derefValC(p interface{}) interface{} { return world.DerefVal(p) }
+func derefValC(p interface{}) interface{}    { return world.DerefVal(p) }
 
 func fOps(cfg *world.Config) []fOp {
 	var ops []fOp
